@@ -923,4 +923,416 @@ theorem C10_history_aux (cfg : Cfg) (hR : 1 ≤ cfg.degreeBound) (steps : List (
       exact ih g' _ (C10_step_aux cfg hR st.ds st.ord g g' L st.batch hinit hg')
 
 end
+
+/-! ### the point store and the index change stream (shard.go transform functions + dispatch.go `getOperation`)
+
+`pstep_spec`: one batch element changes only its own point's document, and the vector index (on ANY schema
+path, nested or not) is told nothing iff the point neither had nor has the field; otherwise it is told about
+this point, with a vector iff the new document has the field — that document's vector.  `pbatch_agree`
+carries "`L` = the points that exist and carry the field" through a batch along `liveAfter`;
+`pbatch_vecs` carries "the index holds the vector of the document". -/
+
+theorem find_filter_ne (S : PStore) (i j : Id) (h : j ≠ i) :
+    (S.filter (fun e => e.1 != i)).find? (fun e => e.1 == j) = S.find? (fun e => e.1 == j) := by
+  rw [List.find?_filter]
+  congr 1
+  funext e
+  by_cases hj : e.1 = j
+  · have : e.1 ≠ i := fun x => h (hj ▸ x)
+    simp [hj, h]
+  · simp [hj]
+
+theorem find_filter_eq (S : PStore) (i : Id) :
+    (S.filter (fun e => e.1 != i)).find? (fun e => e.1 == i) = none := by
+  rw [List.find?_filter]
+  simp
+
+theorem docOf_putDoc (S : PStore) (i j : Id) (d : Doc) :
+    docOf (putDoc S i d) j = if j = i then some d else docOf S j := by
+  unfold docOf putDoc
+  by_cases h : j = i
+  · subst h; simp
+  · have h' : (i == j) = false := by simpa using fun e : i = j => h e.symm
+    simp only [List.find?_cons, h', h, if_false, find_filter_ne S i j h]
+
+theorem docOf_dropDoc (S : PStore) (i j : Id) :
+    docOf (dropDoc S i) j = if j = i then none else docOf S j := by
+  unfold docOf dropDoc
+  by_cases h : j = i
+  · subst h; simp
+  · simp only [h, if_false, find_filter_ne S i j h]
+
+
+
+/-- has-the-field of an optional document (`len(data) == 0` ⇒ no field) -/
+def hasF (vp : Path) : Option Doc → Bool
+  | none => false
+  | some d => hasField vp d
+
+theorem qv_hasF (vp : Path) (od : Option Doc) (a : Option Leaf) (h : qv vp od = .ok a) : hasF vp od = a.isSome := by
+  cases od with
+  | none => simp [qv] at h; subst h; rfl
+  | some d =>
+    simp only [qv] at h
+    simp only [hasF, hasField, h]
+    cases a <;> rfl
+
+/-- what `changeOf` emits: nothing iff neither document has the field; otherwise a change for this point
+that carries a vector iff the new document has the field (and then it is that document's vector) -/
+theorem changeOf_spec (vp : Path) (i : Id) (prev cur : Option Doc) (c : Option VChange)
+    (h : changeOf vp i prev cur = .ok c) :
+    (c = none ∧ hasF vp prev = false ∧ hasF vp cur = false) ∨
+    (∃ v, c = some { id := i, vec := v } ∧ v.isSome = hasF vp cur ∧ (hasF vp prev = true ∨ hasF vp cur = true) ∧
+      (∀ t, v = some t ↔ qv vp cur = .ok (some (Leaf.vec t)))) := by
+  unfold changeOf at h
+  split at h
+  · cases h
+  · rename_i a ha
+    have hp := qv_hasF vp prev a ha
+    split at h
+    · cases h
+    · rename_i hb
+      have hc := qv_hasF vp cur none hb
+      cases h
+      cases a with
+      | none => left; simp_all
+      | some l => right; exact ⟨none, by simp, by simp [hc], by simp [hp], by simp [hb]⟩
+    · rename_i t hb
+      have hc := qv_hasF vp cur _ hb
+      cases h
+      right
+      refine ⟨some t, rfl, by simp [hc], by simp [hc], ?_⟩
+      intro t'
+      rw [hb]
+      constructor
+      · intro e; cases e; rfl
+      · intro e; cases e; rfl
+    · cases h
+
+theorem fld_eq (vp : Path) (S : PStore) (i : Id) : fld vp S i = hasF vp (docOf S i) := by
+  unfold fld hasF
+  cases docOf S i <;> rfl
+
+/-- effect of one batch element on "exists and has the field", and on the emitted change -/
+theorem pstep_spec (vp : Path) (S S' : PStore) (o : POp) (c : Option VChange) (h : pstep vp S o = .ok (S', c)) :
+    (∀ j, j ≠ o.id → docOf S' j = docOf S j) ∧
+    ((c = none ∧ fld vp S o.id = false ∧ fld vp S' o.id = false) ∨
+     (∃ v, c = some { id := o.id, vec := v } ∧ v.isSome = fld vp S' o.id ∧
+        (fld vp S o.id = true ∨ fld vp S' o.id = true) ∧ (∀ t, v = some t ↔ docVec vp S' o.id = some t))) := by
+  cases o with
+  | ins i doc =>
+    simp only [pstep] at h
+    split at h
+    · cases h
+    · rename_i hno
+      split at h
+      · cases h
+      · rename_i c' hc
+        cases h
+        refine ⟨fun j hj => by simp [docOf_putDoc, POp.id] at hj ⊢; simp [hj], ?_⟩
+        have := changeOf_spec vp i none (some doc) c hc
+        simp only [POp.id, fld_eq, docVec, docOf_putDoc, if_true, hno] at this ⊢
+        rcases this with ⟨h1, h2, h3⟩ | ⟨v, h1, h2, h3, h4⟩
+        · left; exact ⟨h1, h2, h3⟩
+        · right
+          refine ⟨v, h1, h2, h3, ?_⟩
+          intro t; rw [h4 t]; simp only [qv]
+          cases query vp doc with
+          | error e => simp
+          | ok a => cases a with
+            | none => simp
+            | some l => cases l <;> simp
+  | upd i inc =>
+    simp only [pstep] at h
+    split at h
+    · rename_i hno
+      cases h
+      refine ⟨fun j _ => rfl, Or.inl ⟨rfl, ?_, ?_⟩⟩ <;> simp [fld, POp.id, hno]
+    · rename_i old hold
+      split at h
+      · cases h
+      · rename_i c' hc
+        cases h
+        refine ⟨fun j hj => by simp [docOf_putDoc, POp.id] at hj ⊢; simp [hj], ?_⟩
+        have := changeOf_spec vp i (some old) (some (mergeDoc old inc)) c hc
+        simp only [POp.id, fld_eq, docVec, docOf_putDoc, if_true, hold] at this ⊢
+        rcases this with ⟨h1, h2, h3⟩ | ⟨v, h1, h2, h3, h4⟩
+        · left; exact ⟨h1, h2, h3⟩
+        · right
+          refine ⟨v, h1, h2, h3, ?_⟩
+          intro t; rw [h4 t]; simp only [qv]
+          cases query vp (mergeDoc old inc) with
+          | error e => simp
+          | ok a => cases a with
+            | none => simp
+            | some l => cases l <;> simp
+  | del i =>
+    simp only [pstep] at h
+    split at h
+    · rename_i hno
+      cases h
+      refine ⟨fun j _ => rfl, Or.inl ⟨rfl, ?_, ?_⟩⟩ <;> simp [fld, POp.id, hno]
+    · rename_i old hold
+      split at h
+      · cases h
+      · rename_i c' hc
+        cases h
+        refine ⟨fun j hj => by simp [docOf_dropDoc, POp.id] at hj ⊢; simp [hj], ?_⟩
+        have := changeOf_spec vp i (some old) none c hc
+        simp only [POp.id, fld_eq, docVec, docOf_dropDoc, if_true, hold] at this ⊢
+        rcases this with ⟨h1, h2, h3⟩ | ⟨v, h1, h2, h3, h4⟩
+        · left; exact ⟨h1, h2, h3⟩
+        · right
+          refine ⟨v, h1, h2, h3, ?_⟩
+          intro t; rw [h4 t]; simp [qv]
+
+
+
+/-- `L` lists exactly the points that exist and carry the field -/
+def Agree (vp : Path) (L : List Id) (S : PStore) : Prop := L.Nodup ∧ ∀ i, i ∈ L ↔ fld vp S i = true
+
+theorem liveAfter_append (L : List Id) (a b : List Change) : liveAfter L (a ++ b) = liveAfter (liveAfter L a) b := by
+  induction a generalizing L with
+  | nil => rfl
+  | cons c rest ih => simp only [List.cons_append, liveAfter_cons, ih]
+
+theorem pstep_agree (vp : Path) (S S' : PStore) (o : POp) (c : Option VChange) (L : List Id)
+    (hA : Agree vp L S) (h : pstep vp S o = .ok (S', c)) :
+    Agree vp (liveAfter L (c.toList.map VChange.toChange)) S' := by
+  obtain ⟨hoth, hc⟩ := pstep_spec vp S S' o c h
+  have hfo : ∀ j, j ≠ o.id → fld vp S' j = fld vp S j := fun j hj => by simp only [fld, hoth j hj]
+  rcases hc with ⟨rfl, h1, h2⟩ | ⟨v, rfl, hv, _, _⟩
+  · simp only [Option.toList, List.map_nil, liveAfter]
+    refine ⟨hA.1, fun i => ?_⟩
+    by_cases hi : i = o.id
+    · subst hi; rw [hA.2, h1, h2]
+    · rw [hA.2, hfo i hi]
+  · simp only [Option.toList, List.map_cons, List.map_nil, liveAfter_cons, liveAfter]
+    refine ⟨liveStep_nodup _ _ hA.1, fun i => ?_⟩
+    rw [liveStep_mem]
+    simp only [VChange.toChange]
+    by_cases hi : i = o.id
+    · subst hi
+      rw [← hv]
+      cases v <;> simp
+    · rw [hfo i hi, hA.2]
+      cases v <;> simp [hi]
+
+theorem pbatch_agree (vp : Path) (ops : List POp) (S S' : PStore) (cs : List VChange) (L : List Id)
+    (hA : Agree vp L S) (h : pbatch vp ops S = .ok (S', cs)) :
+    Agree vp (liveAfter L (cs.map VChange.toChange)) S' := by
+  induction ops generalizing S L cs with
+  | nil => simp [pbatch] at h; obtain ⟨rfl, rfl⟩ := h; exact hA
+  | cons o rest ih =>
+    simp only [pbatch] at h
+    split at h
+    · cases h
+    · rename_i S1 c hs
+      split at h
+      · cases h
+      · rename_i S2 cs2 hb
+        cases h
+        rw [List.map_append, liveAfter_append]
+        exact ih S1 cs2 _ (pstep_agree vp S S1 o c L hA hs) hb
+
+/-! keys of the points bucket are unique (bbolt keys; node ids unique among live points: C01) -/
+
+def PStore.keys (S : PStore) : List Id := S.map (·.1)
+
+theorem mem_fieldIds (vp : Path) (S : PStore) (hS : S.keys.Nodup) (i : Id) :
+    i ∈ fieldIds vp S ↔ fld vp S i = true := by
+  unfold fieldIds fld docOf
+  induction S with
+  | nil => simp
+  | cons e rest ih =>
+    have hnd : (PStore.keys rest).Nodup := (List.nodup_cons.mp hS).2
+    have hne : e.1 ∉ PStore.keys rest := (List.nodup_cons.mp hS).1
+    by_cases hi : e.1 = i
+    · subst hi
+      simp only [List.find?_cons, beq_self_eq_true, Option.map_some]
+      by_cases hf : hasField vp e.2 = true
+      · simp [hf]
+      · have : e.1 ∉ List.map (·.1) (List.filter (fun e => hasField vp e.2) rest) := by
+          intro hm
+          obtain ⟨x, hx, hx1⟩ := List.mem_map.mp hm
+          exact hne (List.mem_map.mpr ⟨x, (List.mem_filter.mp hx).1, hx1⟩)
+        simp [hf, this]
+    · have hi' : (e.1 == i) = false := by simpa using hi
+      simp only [List.find?_cons, hi']
+      rw [← ih hnd]
+      by_cases hf : hasField vp e.2 = true
+      · have hi2 : ¬ i = e.1 := fun x => hi x.symm
+        simp [hf, hi2]
+      · simp [hf]
+
+theorem fieldIds_nodup (vp : Path) (S : PStore) (hS : S.keys.Nodup) : (fieldIds vp S).Nodup := by
+  unfold fieldIds
+  exact List.Nodup.sublist (List.Sublist.map _ List.filter_sublist) hS
+
+theorem agree_fieldIds (vp : Path) (S : PStore) (hS : S.keys.Nodup) : Agree vp (fieldIds vp S) S :=
+  ⟨fieldIds_nodup vp S hS, mem_fieldIds vp S hS⟩
+
+theorem pstep_keys (vp : Path) (S S' : PStore) (o : POp) (c : Option VChange) (hS : S.keys.Nodup)
+    (h : pstep vp S o = .ok (S', c)) : S'.keys.Nodup := by
+  have hput : ∀ i d, (putDoc S i d).keys.Nodup := by
+    intro i d
+    unfold putDoc PStore.keys
+    rw [List.map_cons, List.nodup_cons]
+    refine ⟨?_, List.Nodup.sublist (List.Sublist.map _ List.filter_sublist) hS⟩
+    intro hm
+    obtain ⟨x, hx, hx1⟩ := List.mem_map.mp hm
+    have := (List.mem_filter.mp hx).2
+    simp at this
+    exact this hx1
+  have hdrop : ∀ i, (dropDoc S i).keys.Nodup := fun i =>
+    List.Nodup.sublist (List.Sublist.map _ List.filter_sublist) hS
+  cases o with
+  | ins i doc =>
+    simp only [pstep] at h
+    split at h
+    · cases h
+    · split at h
+      · cases h
+      · cases h; exact hput _ _
+  | upd i inc =>
+    simp only [pstep] at h
+    split at h
+    · cases h; exact hS
+    · split at h
+      · cases h
+      · cases h; exact hput _ _
+  | del i =>
+    simp only [pstep] at h
+    split at h
+    · cases h; exact hS
+    · split at h
+      · cases h
+      · cases h; exact hdrop _
+
+theorem pbatch_keys (vp : Path) (ops : List POp) (S S' : PStore) (cs : List VChange) (hS : S.keys.Nodup)
+    (h : pbatch vp ops S = .ok (S', cs)) : S'.keys.Nodup := by
+  induction ops generalizing S cs with
+  | nil => simp [pbatch] at h; obtain ⟨rfl, rfl⟩ := h; exact hS
+  | cons o rest ih =>
+    simp only [pbatch] at h
+    split at h
+    · cases h
+    · rename_i S1 c hs
+      split at h
+      · cases h
+      · rename_i S2 cs2 hb
+        cases h
+        exact ih S1 cs2 (pstep_keys vp S S1 o c hS hs) hb
+
+/-- `WF` does not depend on the order in which `L` lists the points -/
+theorem WF_congr (R : Nat) (g : Graph) (L L' : List Id) (hnd : L'.Nodup) (hm : ∀ i, i ∈ L ↔ i ∈ L')
+    (h : WF R g L) : WF R g L' := by
+  rw [wf_iff] at h ⊢
+  obtain ⟨hP, _, he, hk, hmx⟩ := h
+  exact ⟨hP, hnd, fun x => he ((hm _).mpr x), fun i => by rw [hk i, hm i], fun i hi => hmx i ((hm i).mpr hi)⟩
+
+theorem docVec_none_of_fld (vp : Path) (S : PStore) (i : Id) (h : fld vp S i = false) : docVec vp S i = none := by
+  unfold fld at h
+  unfold docVec
+  cases hd : docOf S i with
+  | none => rfl
+  | some d =>
+    simp only [hd, hasField] at h ⊢
+    cases hq : query vp d with
+    | error e => rfl
+    | ok a =>
+      cases a with
+      | none => rfl
+      | some l => simp [hq] at h
+
+theorem pstep_vecs (vp : Path) (S S' : PStore) (o : POp) (c : Option VChange) (T : Id → Option Nat)
+    (hT : ∀ i, T i = docVec vp S i) (h : pstep vp S o = .ok (S', c)) :
+    ∀ i, vecsAfter T c.toList i = docVec vp S' i := by
+  obtain ⟨hoth, hc⟩ := pstep_spec vp S S' o c h
+  have hvo : ∀ j, j ≠ o.id → docVec vp S' j = docVec vp S j := fun j hj => by simp only [docVec, hoth j hj]
+  intro i
+  rcases hc with ⟨rfl, h1, h2⟩ | ⟨v, rfl, _, _, hv⟩
+  · simp only [Option.toList, vecsAfter, hT]
+    by_cases hi : i = o.id
+    · subst hi; rw [docVec_none_of_fld _ _ _ h1, docVec_none_of_fld _ _ _ h2]
+    · rw [hvo i hi]
+  · simp only [Option.toList, vecsAfter]
+    by_cases hi : i = o.id
+    · subst hi
+      simp only [if_true]
+      cases v with
+      | none =>
+        cases hd : docVec vp S' o.id with
+        | none => rfl
+        | some t => exact absurd ((hv t).mpr hd) (by simp)
+      | some t => exact ((hv t).mp rfl).symm
+    · simp only [hi, if_false, hT, hvo i hi]
+
+theorem vecsAfter_append (T : Id → Option Nat) (a b : List VChange) (i : Id) :
+    vecsAfter T (a ++ b) i = vecsAfter (vecsAfter T a) b i := by
+  induction a generalizing T with
+  | nil => rfl
+  | cons c rest ih => simp only [List.cons_append, vecsAfter, ih]
+
+theorem pbatch_vecs (vp : Path) (ops : List POp) (S S' : PStore) (cs : List VChange) (T : Id → Option Nat)
+    (hT : ∀ i, T i = docVec vp S i) (h : pbatch vp ops S = .ok (S', cs)) :
+    ∀ i, vecsAfter T cs i = docVec vp S' i := by
+  induction ops generalizing S T cs with
+  | nil => simp [pbatch] at h; obtain ⟨rfl, rfl⟩ := h; exact hT
+  | cons o rest ih =>
+    simp only [pbatch] at h
+    split at h
+    · cases h
+    · rename_i S1 c hs
+      split at h
+      · cases h
+      · rename_i S2 cs2 hb
+        cases h
+        intro i
+        rw [vecsAfter_append]
+        exact ih S1 cs2 _ (pstep_vecs vp S S1 o c T hT hs) hb i
+
+
+
+section
+variable {D : Type} [LT D] [DecidableRel (α := D) (· < ·)]
+
+/-- (used by C10_shard_step and by C03) -/
+theorem shard_step_aux (cfg : Cfg) (hR : 1 ≤ cfg.degreeBound) (ds : Dists D) (ord : List Id) (g g' : Graph)
+    (vp : Path) (ops : List POp) (S S' : PStore) (cs : List VChange) (hS : S.keys.Nodup)
+    (hWF : WF cfg.degreeBound g (fieldIds vp S)) (hb : pbatch vp ops S = .ok (S', cs))
+    (h : apply cfg ds ord g (cs.map VChange.toChange) = .ok g') :
+    WF cfg.degreeBound g' (fieldIds vp S') := by
+  have hk := pbatch_keys vp ops S S' cs hS hb
+  have hA := pbatch_agree vp ops S S' cs _ (agree_fieldIds vp S hS) hb
+  exact WF_congr _ g' _ _ (fieldIds_nodup vp S' hk) (fun i => by rw [hA.2 i, mem_fieldIds vp S' hk i])
+    (C10_step_aux cfg hR ds ord g g' _ _ hWF h)
+
+theorem shard_history_from_aux (cfg : Cfg) (hR : 1 ≤ cfg.degreeBound) (vp : Path) (steps : List (SStep D))
+    (S : PStore) (g : Graph) (hS : S.keys.Nodup) (hWF : WF cfg.degreeBound g (fieldIds vp S)) :
+    (shardRun cfg vp steps (S, g)).1.keys.Nodup ∧
+    WF cfg.degreeBound (shardRun cfg vp steps (S, g)).2 (fieldIds vp (shardRun cfg vp steps (S, g)).1) := by
+  induction steps generalizing S g with
+  | nil => exact ⟨hS, hWF⟩
+  | cons st rest ih =>
+    unfold shardRun
+    split
+    · exact ih S g hS hWF
+    · rename_i S' cs hb
+      split
+      · exact ih S g hS hWF
+      · rename_i g' hg'
+        exact ih S' g' (pbatch_keys vp st.ops S S' cs hS hb)
+          (shard_step_aux cfg hR st.ds st.ord g g' vp st.ops S S' cs hS hWF hb hg')
+
+theorem shard_history_aux (cfg : Cfg) (hR : 1 ≤ cfg.degreeBound) (vp : Path) (steps : List (SStep D)) :
+    (shardRun cfg vp steps ([], Graph.init)).1.keys.Nodup ∧
+    WF cfg.degreeBound (shardRun cfg vp steps ([], Graph.init)).2
+      (fieldIds vp (shardRun cfg vp steps ([], Graph.init)).1) := by
+  refine shard_history_from_aux cfg hR vp steps [] Graph.init (by simp [PStore.keys]) ?_
+  unfold WF wfB Graph.init Graph.keys fieldIds
+  simp [nodupB, entry]
+
+end
+
 end Sema.C10
